@@ -39,21 +39,27 @@ def canon_text(o, idx):
 
 
 def sample_xml(tns, attrs_variant, doc, k):
+    # the namespace slot of MC_Infer: none, one namespace for every element, or a namespace that CHANGES on the way
+    # down ("|alt": root and grandchildren qualified, children not; "|kids": only the children qualified)
+    tns, _, mode = tns.partition("|")
     q = tns != NONE
     decl = f' xmlns:t="{tns}"' if q else ""
     counter = {"n": 0}
 
-    def el(o):
+    def qualified(depth):
+        return q and (not mode or (depth % 2 == 0) == (mode == "alt"))
+
+    def el(o, depth=1):
         counter["n"] += 1
-        tag = f"t:{o['name']}" if q else o["name"]
+        tag = f"t:{o['name']}" if qualified(depth) else o["name"]
         if o["kids"]:
-            return f"<{tag}>" + "".join(el(c) for c in o["kids"]) + f"</{tag}>"
+            return f"<{tag}>" + "".join(el(c, depth + 1) for c in o["kids"]) + f"</{tag}>"
         return f"<{tag}>{canon_text(o, counter['n'])}</{tag}>"
 
     # variant 4: an ATTRIBUTE with the same local name as the first child element (two different members of the class)
     same = f' {doc[0]["name"]}="7"' if doc else ""
     attrs = {1: "", 2: ' id="7"', 3: ' id="8" lang="en"' if k % 2 else ' id="9"', 4: same}[attrs_variant]
-    rtag = "t:Root" if q else "Root"
+    rtag = "t:Root" if qualified(0) else "Root"
     return f"<{rtag}{decl}{attrs}>" + "".join(el(o) for o in doc) + f"</{rtag}>"
 
 
